@@ -1,6 +1,7 @@
 import Glom.Py.Json
 import Glom.Spec.C14
 import Glom.Model.C01
+import Glom.Model.C14Env
 /-
   C14 driver: one JSON case in, one JSON verdict out.
 
@@ -8,6 +9,11 @@ import Glom.Model.C01
           "spelling": {"text":"a.*.b"} | {"parts":[{"seg":Val} | {"t":[[op,Val]…]}…]},
           "mut": null | {"kind":"assign","val":Val,"missing":null|"dict"|"list"} | {"kind":"delete","ignore":b}
                  (the final step of the spelling — seg / T[..] / T.attr — gives the op of the mutation),
+          "sroot": null | {"var": name, "first": "[" | "." | "P"}
+                 (the path is spelled from S: S[name]… / S.name… / Path(S, name, …) with the target as the
+                  scope variable `name` — `glom(other, spec, scope={name: target})`; modelled as the
+                  T-rooted evaluation on the same data: the first step names the variable
+                  (`_s_first_magic`), the remainder after a wildcard is rooted at T (facts obligation)),
           "impl": {"ok":Res} | "pae" | {"other":cls} | {"mutated":[Obj…],"err":cls|null} | "timeout"}
   Res:   {"v":Val} | {"l":[Res…]}
 -/
@@ -122,6 +128,11 @@ def run (j : Json) : Except String Json := do
   -- `missing=` is consulted only when the path fails before its first wildcard: C11's subject
   if (match mutK, modelObs with | some (.assign _ _ true), .pae => true | _, _ => false) then
     return Json.mkObj [("skip", true), ("why", "Assign(missing=) whose path fails before the first wildcard (C11)")]
+  -- an S-rooted spelling: the model is the T-rooted evaluation of the same data only as far as the
+  -- remainder after a wildcard is rooted at T in the source read on this run
+  let sroot := match j.getObjVal? "sroot" with | .ok (.obj _) => true | _ => false
+  let modelObs := if sroot && !(remainderAtT "S") then
+      Obs.other "the remainder of an S-rooted wildcard path restarts from the scope" else modelObs
   let agree := match implObs with
     | some o => obsEq modelObs o
     | none => false
@@ -136,6 +147,6 @@ def run (j : Json) : Except String Json := do
   return Json.mkObj [("agree", agree), ("holds", holds),
     ("model", obsToJson modelObs),
     ("timeout", implObs.isNone),
-    ("branch", s!"{kindStr}-x{nx}-X{nX}-{outcome}")]
+    ("branch", (if sroot then "S:" else "") ++ s!"{kindStr}-x{nx}-X{nX}-{outcome}")]
 
 end Glom.C14.Driver
